@@ -30,6 +30,7 @@ def _fr(x):
 
 class PS:
     __slots__ = ("c",)
+    is_symbolic_scalar = True
 
     def __init__(self, c):
         c = list(c)[:N]
